@@ -188,8 +188,10 @@ def check(ctx):
     ctx.attempt(_config_words)
     ctx.attempt(_by_position)
     ctx.attempt(_deadspace_siblings)
+    from .c13 import word_dispatch       # a bare layout word must not be taken for a default direction
+    ctx.attempt(word_dispatch)
     from .c14 import fresh_inputs        # preprocess() starts from the original text, not from its own earlier output
-    ctx.attempt(fresh_inputs, specs=(('PLSSDesc.preprocess', 'PLSSPreprocessor', 'plss_preprocess'),))
+    ctx.attempt(fresh_inputs, specs=(('PLSSDesc.preprocess', 'PLSSPreprocessor', 'plss_preprocess'), ('PLSSDesc.parse', 'PLSSParser', 'plss_parse')))
     from .c13 import lockdown as _lockdown
     ctx.attempt(_lockdown, ctx.repo.func('Tract.from_twprgesec'), only=('default_ns', 'default_ew'), source='config')
 
